@@ -24,7 +24,7 @@ from ..algebra import run_trace_leg
 from . import c04
 
 LEVEL = 'model_checking'
-AUTO_PLACEMENTS = ['auto', 'auto_closure', 'auto_attr', 'auto_attr2', 'auto_method', 'auto_param', 'auto_wraps', 'auto_deco_noop', 'auto_param_default']
+AUTO_PLACEMENTS = ['auto', 'auto_closure', 'auto_attr', 'auto_attr2', 'auto_method', 'auto_param', 'auto_wraps', 'auto_deco_noop', 'auto_param_default', 'auto_hint', 'auto_hint_partial']
 MINE = ('C05', 'C07')        # clause prefixes this check reports; C06_* clauses of the shared events belong to check C06
 
 
@@ -131,6 +131,9 @@ def taint_key(case):
 
 def make_classify(mine):
     def classify(tid, clause, case):
+        # the one-call grid is validated by Trace_Exec, whose execution-soundness clause carries C04's name: for a DISCOVERED signature it is C05's
+        if clause == 'C04_AcceptedCallRaisesTypeError' and 'C05' in mine and isinstance(case, dict) and str(case.get('placement', '')).startswith('auto'):
+            return 'C05_AcceptedCallRaisesTypeError(grid)'
         if not clause.startswith(mine) and not clause.startswith('HARNESS'):
             return 'IGNORE'
         if clause == 'C05_AcceptedCallRaisesTypeError_HiddenCallMerged':
@@ -169,7 +172,7 @@ def run_shared(check, tier, seed, scratch, mine):
     check.cov['statement_alphabet'] = len(stmts)
     check.cov['rule'] = ('statement-level: all programs of <= 2 statements over the %d-statement alphabet exported by TLC (%s), each with a seeded choice of '
                          'outer (3), callee shapes (3), same/distinct callees, n, written names; %s; one-call grid: %d seeded (outer in the %d star-bearing '
-                         'signatures, callee in the 220-signature universe, written call, 9 resolution routes), executed on the complete call set; '
+                         'signatures, callee in the 220-signature universe, written call, 11 resolution routes), executed on the complete call set; '
                          'distinct by (program, signatures, choices)' % (
                              len(stmts), 'a seeded 15% in the quick tier' if quick else 'all', '15% of 8000 seeded programs of 3 statements' if quick else '120000 seeded programs each of 3 and 4 statements',
                              ngrid, len(UO)))
